@@ -63,7 +63,7 @@ Proof.
   destruct c; cbn [is_call fst];
     try (match goal with |- context [exec_db ?c0 ?d] => destruct (exec_db c0 d) as [d' r'] end; exact Hs);
     try exact Hs.
-  - destruct (l_createerr _); cbn [fst]; [exact Hs|]. unfold settled in *. cbn [w_ln set_ln l_inv] in *.
+  - destruct (l_createerr _ || _); cbn [fst]; [exact Hs|]. unfold settled in *. cbn [w_ln set_ln l_inv] in *.
     rewrite find_app_first. destruct (find _ (l_inv (w_ln w))) as [i|]; [exact Hs|discriminate].
   - destruct (l_inverr _); cbn [fst]; [exact Hs|]. destruct (find _ _); exact Hs.
   - destruct (pop _ _ _) as [a rest]. exact Hs.
